@@ -4,6 +4,7 @@ import (
 	"encoding/json"
 	"fmt"
 	"math"
+	"math/bits"
 
 	"mltwist/internal/state/interval"
 	"mltwist/verifh/eng"
@@ -27,6 +28,9 @@ type c17Case struct {
 	Swap bool   `json:"swap,omitempty"`
 	Unit bool   `json:"unit,omitempty"` // operands built from unit intervals (NewMap has to merge them)
 	U    int    `json:"u,omitempty"`    // universe size (0 = 8)
+	// Shared: the interval list of one operand is a prefix of the other's; both operands are
+	// built by NewMap from slices of ONE array that start at the same element
+	Shared bool `json:"shared_storage,omitempty"`
 }
 
 // c17U is the universe size: 8 in quick, 12 in thorough (set once per run / replay).
@@ -91,8 +95,18 @@ func c17Run[T constraints.Integer](c c17Case, base T) *eng.Fail {
 			}
 			got = interval.NewMap(l...)
 		default:
-			a := interval.NewMap(maskIntervals(c.A, base)...)
-			b := interval.NewMap(maskIntervals(c.B, base)...)
+			la, lb := maskIntervals(c.A, base), maskIntervals(c.B, base)
+			if c.Shared {
+				site += " (operands share storage)"
+				// the shorter list becomes a prefix slice of the longer one's array
+				if len(la) <= len(lb) {
+					la = lb[:len(la)]
+				} else {
+					lb = la[:len(lb)]
+				}
+			}
+			a := interval.NewMap(la...)
+			b := interval.NewMap(lb...)
 			if ma, e := checkCanon(a, base); e != "" || ma != c.A {
 				panic("operand construction broken (NewMap): " + e)
 			}
@@ -124,6 +138,21 @@ func c17Run[T constraints.Integer](c c17Case, base T) *eng.Fail {
 		return &eng.Fail{Sig: site + " wrong-set", What: fmt.Sprintf("%s yields set %08b, expected %08b (bit i = universe element i; operands %b and %b)", site, m, exp, c.A, c.B), Case: c, Expected: exp, Observed: m}
 	}
 	return nil
+}
+
+// c17Prefix: the interval list of one set is a prefix of the other's (the sets agree below the
+// end of the shorter one's last interval, and the longer one has nothing adjacent to it there).
+func c17Prefix(a, b int) bool {
+	x := a ^ b
+	if x == 0 {
+		return true
+	}
+	k := bits.TrailingZeros64(uint64(x)) // lowest element on which the sets differ
+	s := a
+	if a>>k&1 == 1 {
+		s = b // s is the set without element k: it must end below k-1
+	}
+	return s>>k == 0 && (k == 0 || s>>(k-1)&1 == 0)
 }
 
 func unitIntervals[T constraints.Integer](m int, base T) []interval.Interval[T] {
@@ -224,7 +253,7 @@ func c17Dispatch(c c17Case) *eng.Fail {
 
 func init() {
 	checks["C17"] = eng.Check{
-		Rule: "every list of <=3 (quick) / <=4 (thorough) non-empty intervals over a universe of 8 (quick) / 12 (thorough) integers for NewMap; all 2^U x 2^U pairs of subsets of the universe for union, complement, intersect; at 5 placements (int at 0, int straddling 0, int64 at MinInt64, uint64 and uint8 ending at Max); sequences r1=op1(a,b), r2=op2(a,c) or op2(c,a) over all 64^3 triples of 6-bit sets in 3 relative placements x 9 operator pairs (quick: all pairs involving union, a quarter of the others), operands built directly and from unit intervals that NewMap must merge: the second result is exact and the earlier result and all operands are unchanged; large operands: over a universe of 48 integers every set of many intervals (periodic patterns of period 2..5 in every phase and run length, 9..24 intervals, those of period 4 also with each single interval removed) against every set of one or two intervals with ends on a 16-point grid and against each other, both operand orders, all three operations; NewMap of each many-interval set handed in sorted, reversed, rotated, interleaved and with every interval twice. Non-trivial = case whose expected result is a non-empty set and whose operands are both non-empty.",
+		Rule: "every list of <=3 (quick) / <=4 (thorough) non-empty intervals over a universe of 8 (quick) / 12 (thorough) integers for NewMap; all 2^U x 2^U pairs of subsets of the universe for union, complement, intersect (pairs whose interval lists are prefixes of one another also with both operands built by NewMap from slices of ONE array); at 5 placements (int at 0, int straddling 0, int64 at MinInt64, uint64 and uint8 ending at Max); sequences r1=op1(a,b), r2=op2(a,c) or op2(c,a) over all 64^3 triples of 6-bit sets in 3 relative placements x 9 operator pairs (quick: all pairs involving union, a quarter of the others), operands built directly and from unit intervals that NewMap must merge: the second result is exact and the earlier result and all operands are unchanged; large operands: over a universe of 48 integers every set of many intervals (periodic patterns of period 2..5 in every phase and run length, 9..24 intervals, those of period 4 also with each single interval removed) against every set of one or two intervals with ends on a 16-point grid and against each other, both operand orders, all three operations; NewMap of each many-interval set handed in sorted, reversed, rotated, interleaved and with every interval twice. Non-trivial = case whose expected result is a non-empty set and whose operands are both non-empty.",
 		Assumptions: []string{
 			"interval ends are representable (universe ends at Max, never beyond)",
 			"NewMap receives only non-empty intervals (the property's domain)",
@@ -263,6 +292,15 @@ func init() {
 								r.Outcome(f.Sig)
 							} else {
 								r.Outcome("ok")
+							}
+							// operands whose interval lists are prefixes of one another: also built from one array
+							if a != 0 && b != 0 && c17Prefix(a, b) {
+								c.Shared = true
+								if f := c17Dispatch(c); f != nil {
+									r.Report(f)
+									r.Outcome(f.Sig)
+								}
+								r.Eval(1)
 							}
 						}
 					}
